@@ -545,7 +545,9 @@ class Ref:
                 return "NoneType" if t in ("set", "del") else r
 
             def around_call():
-                if is_public(f["name"]) and m.invariants(ci):
+                # ``del obj.attr`` is a call of __delattr__, a public (dunder) method: the invariants are checked around it
+                # whatever the attribute is called
+                if (is_public(f["name"]) or t == "del") and m.invariants(ci):
                     return self.inv_wrapped(k, self.selected(ci, "CALL"), inner)
                 return inner()
 
